@@ -307,6 +307,28 @@ func (sv *negServer) serve(conn net.Conn) {
 					}
 					conn.SetReadDeadline(time.Time{})
 					conn.Write([]byte{0x15, 0x03, 0x03, 0x00, 0x02, 0x02, 0x28}) // alert: fatal, handshake_failure
+					// whatever the client's TLS layer still writes (its own alert) is skipped: the next thing of interest
+					// is an XML declaration or a stream header in clear text
+					var acc []byte
+					conn.SetReadDeadline(time.Now().Add(2 * time.Second))
+					for {
+						n, err := conn.Read(buf)
+						acc = append(acc, buf[:n]...)
+						if i := bytes.Index(acc, []byte("<?xml")); i >= 0 {
+							acc = acc[i:]
+							break
+						}
+						if i := bytes.Index(acc, []byte("<stream:stream")); i >= 0 {
+							acc = acc[i:]
+							break
+						}
+						if err != nil || len(acc) > 1<<16 {
+							return
+						}
+					}
+					conn.SetReadDeadline(time.Time{})
+					conn = &prefixConn{Conn: conn, r: io.MultiReader(bytes.NewReader(acc), conn)}
+					w = func(s string) { conn.Write([]byte(s)) }
 					dec = xml.NewDecoder(conn)
 					tlsDone = true // the script goes on as if TLS were up (f2 / o2 for the restarted stream)
 					continue
